@@ -46,9 +46,9 @@ final class _RustAlloc implements ffi.Allocator {
 external ffi.Pointer<ffi.Void> _diplomat_alloc(int len, int align);
 
 @_DiplomatFfiUse('diplomat_free')
-@ffi.Native<ffi.Size Function(ffi.Pointer<ffi.Void>, ffi.Size, ffi.Size)>(symbol: 'diplomat_free', isLeaf: true)
+@ffi.Native<ffi.Void Function(ffi.Pointer<ffi.Void>, ffi.Size, ffi.Size)>(symbol: 'diplomat_free', isLeaf: true)
 // ignore: non_constant_identifier_names
-external int _diplomat_free(ffi.Pointer<ffi.Void> ptr, int len, int align);
+external void _diplomat_free(ffi.Pointer<ffi.Void> ptr, int len, int align);
 
 
 // ignore: unused_element
